@@ -88,6 +88,9 @@ let sdd_fields vt ops target ng (qs : string list) ws =
 let () =
   List.iter (fun line ->
     match split_ws line with
+    (* soak cases (one long-lived hash-identified builder, 10^5 operations) are oracle-only: the
+       Coq model of the semantic builder cannot follow them; the harness prints the same token *)
+    | id :: "SOAK" :: _ -> print_endline (id ^ " soak=oracle-only")
     | id :: toks ->
       let (order0, ops, rest) = parse_prog toks in
       let nv = List.length order0 in
